@@ -789,7 +789,7 @@ func (rr *vpRunner) runs(cfg config, mi *msgInfo, r *rng) {
 }
 
 func engineReflectViewProg(cfg config, o *out) {
-	schemas := loadSchemas()
+	schemas := loadSchemasProg()
 	cc := newClassCov("reflectviewprog")
 	defer cc.emit(o)
 	for _, si := range schemas {
